@@ -30,6 +30,34 @@ type run struct {
 	opts    string
 	class   string
 	witness map[string]any
+	// how the routine obtains the quantity of its stopping rule: by AD of the
+	// objective handed to it with derivatives of this order (1 or 2), or from the
+	// monitor's explicit gradient function (RunGradient variants)
+	order    int
+	explicit bool
+}
+
+// libNorm evaluates |grad f(x)| exactly as the routine does: same objective, same
+// operations, same order of summation - the result is bit-identical to what the
+// routine compared with epsilon if it evaluated at x, so no allowance is needed.
+func (r *run) libNorm(fam Family, x []float64) float64 {
+	n := len(x)
+	g := ad.NullDenseFloat64Vector(n)
+	if r.explicit {
+		copy(g, fam.Eval(x).G)
+	} else {
+		X := ad.NewDenseReal64Vector(cloneF(x))
+		o := r.order
+		if o == 0 {
+			o = 1
+		}
+		X.Variables(o)
+		y := fam.AD(X)
+		for i := 0; i < n; i++ {
+			g[i] = y.GetDerivative(i)
+		}
+	}
+	return ad.NullFloat64().Vnorm(g).GetFloat64()
 }
 
 func (r *run) sig(kind string) string {
@@ -233,6 +261,13 @@ func (r *run) checkGradStop(fam Family, x []float64, eps float64, lastEval []flo
 			gn, eps, slack, fmtVec(x), extra))
 		return
 	}
+	// the criterion as the routine itself evaluates it (no allowance)
+	r.cs.Cover("judged:stop-exact:" + r.routine)
+	if ln := r.libNorm(fam, x); !(ln < eps) {
+		r.violWith(r.opts, r.class, "stop-condition", fmt.Sprintf("returned without error, hook stop or iteration cap, but |grad f(x*)| = %.17g evaluated with the objective handed to the routine is not below epsilon = %.17g; x* = %s (closed form: %.6g)",
+			ln, eps, fmtVec(x), gn))
+		return
+	}
 	if q, ok := fam.(*Quadratic); ok {
 		d := make([]float64, len(x))
 		for i := range d {
@@ -255,6 +290,20 @@ func (r *run) checkResidualStop(p *PolySystem, x []float64, eps float64) {
 	if !(fn < eps*(1+EpsSlack)+slack) {
 		r.viol("stop-condition", fmt.Sprintf("returned without error, hook stop or iteration cap, but |F(x*)| = %.6g is not below epsilon = %.6g (rounding allowance %.3g); x* = %s",
 			fn, eps, slack, fmtVec(x)))
+		return
+	}
+	// the criterion as the routine itself evaluates it (no allowance)
+	r.cs.Cover("judged:stop-exact:" + r.routine)
+	X := ad.NewDenseReal64Vector(cloneF(x))
+	X.Variables(1)
+	Y := p.AD(X)
+	y := ad.NullDenseFloat64Vector(len(x))
+	for i := range y {
+		y[i] = Y.ConstAt(i).GetFloat64()
+	}
+	if ln := ad.NullFloat64().Vnorm(y).GetFloat64(); !(ln < eps) {
+		r.viol("stop-condition", fmt.Sprintf("returned without error, hook stop or iteration cap, but |F(x*)| = %.17g evaluated with the system handed to the routine is not below epsilon = %.17g; x* = %s (closed form: %.6g, its rounding allowance %.3g)",
+			ln, eps, fmtVec(x), fn, slack))
 	}
 }
 
@@ -409,6 +458,43 @@ func errString(err error) string {
 		s = s[:120]
 	}
 	return strings.ReplaceAll(s, "\n", " ")
+}
+
+// reuseResult makes the objective hand out one and the same result scalar on every
+// call (in a share of the runs): a routine that keeps a reference to an earlier result
+// instead of copying it would then see it overwritten.
+func reuseResult(cs *fw.Case, f func(ad.ConstVector) (ad.MagicScalar, error)) func(ad.ConstVector) (ad.MagicScalar, error) {
+	if !cs.R.Chance(0.3) {
+		cs.Cover("objective-result:fresh")
+		return f
+	}
+	cs.Cover("objective-result:reused")
+	out := ad.NullReal64()
+	return func(x ad.ConstVector) (ad.MagicScalar, error) {
+		y, err := f(x)
+		if err != nil {
+			return nil, err
+		}
+		out.Set(y)
+		return out, nil
+	}
+}
+
+func reuseVectorResult(cs *fw.Case, n int, f func(ad.ConstVector) (ad.MagicVector, error)) func(ad.ConstVector) (ad.MagicVector, error) {
+	if !cs.R.Chance(0.3) {
+		cs.Cover("objective-result:fresh")
+		return f
+	}
+	cs.Cover("objective-result:reused")
+	out := ad.NullDenseReal64Vector(n)
+	return func(x ad.ConstVector) (ad.MagicVector, error) {
+		y, err := f(x)
+		if err != nil {
+			return nil, err
+		}
+		out.Set(y)
+		return out, nil
+	}
 }
 
 func cloneF(x []float64) []float64 { return append([]float64(nil), x...) }
